@@ -158,7 +158,8 @@ def run_countries(shard, mon, S):
             if pos and k % 2:
                 c = urng.choice(sorted(pos))
                 cls = R.position_classes(table[cc]["bban_spec"])
-                pins[c] = "".join(urng.choice(x) for x in cls[pos[c][0] : pos[c][1]])
+                if cls is not None:  # (an unparseable structure string has been reported above)
+                    pins[c] = "".join(urng.choice(x) for x in cls[pos[c][0] : pos[c][1]])
             observe(S.IBAN.random, cc, random=Random(f"u{k}"), **pins)
             c2, code = urng.choice(keys)
             observe(S.BIC.from_bank_code, c2, code)
